@@ -502,13 +502,7 @@ static int addLeaf(KSI_TreeBuilder *builder, KSI_DataHash *hsh, KSI_MetaData *me
 		goto cleanup;
 	}
 
-	/* Insert the leaf. */
-	res = processAndInsertNode(builder, node);
-	if (res != KSI_OK) {
-		KSI_pushError(builder->ctx, res, NULL);
-		goto cleanup;
-	}
-
+	/* Create the handle before the leaf is inserted - once inserted, the node belongs to the tree and may not be freed here. */
 	if (leaf != NULL) {
 		tmp = KSI_new(KSI_TreeLeafHandle);
 		if (tmp == NULL) {
@@ -519,7 +513,16 @@ static int addLeaf(KSI_TreeBuilder *builder, KSI_DataHash *hsh, KSI_MetaData *me
 		tmp->pBuilder = builder;
 		tmp->leafNode = node;
 		tmp->ref = 1;
+	}
 
+	/* Insert the leaf. */
+	res = processAndInsertNode(builder, node);
+	if (res != KSI_OK) {
+		KSI_pushError(builder->ctx, res, NULL);
+		goto cleanup;
+	}
+
+	if (leaf != NULL) {
 		*leaf = tmp;
 		tmp = NULL;
 	}
